@@ -44,6 +44,7 @@ class ArrayGet(_Arr):
     def configs(self, tier):
         ns = (1, 2, 3) if tier == "quick" else (1, 2, 3, 4, 6)
         out = [dict(mode=m, n=n, elems=k) for n in ns for m in ("plain", "ie") for k in ("secret", "const")]
+        out.append(dict(mode="plain", n=7, elems="const"))        # a length with three 1-bits
         out += [dict(mode="plain", n=2, elems="secret", index="int%d" % i, **({"raises_only": True} if i == 2 else {})) for i in (0, 1, 2)]
         return out
 
@@ -281,7 +282,8 @@ class LinCombination(_Arr):
     name = "pysnark.linalg:lin_comb"
 
     def configs(self, tier):
-        return [dict(mode="plain", n=n) for n in (1, 2, 3)]
+        # lengths 7, 11, 15: every shape a divide-and-conquer summation can take (odd at several levels)
+        return [dict(mode="plain", n=n) for n in (1, 2, 3, 7, 11, 15)]
 
     def setup(self, c, cfg):
         apply_mode(c, cfg["mode"])
